@@ -260,3 +260,14 @@ Key:
 	}
 	return &fi
 }
+
+// addrOf returns a pointer to the field: its address when the struct is addressable, otherwise the address of a copy
+// (a struct passed by value is not addressable but its pointer-receiver methods still apply to the field value).
+func addrOf(fv reflect.Value) reflect.Value {
+	if fv.CanAddr() {
+		return fv.Addr()
+	}
+	p := reflect.New(fv.Type())
+	p.Elem().Set(fv)
+	return p
+}
